@@ -1,0 +1,30 @@
+//go:build verif
+// +build verif
+
+package terminfo
+
+// This file is only built with the "verif" build tag.  It gives external
+// verification harnesses read access to the terminal database.
+
+// VerifEntries returns a copy of the registry map (name or alias -> entry).
+// The entries themselves are shared with the registry, not copied.
+func VerifEntries() map[string]*Terminfo {
+	dblock.Lock()
+	defer dblock.Unlock()
+	m := make(map[string]*Terminfo, len(terminfos))
+	for k, v := range terminfos {
+		m[k] = v
+	}
+	return m
+}
+
+// VerifSetEntries replaces the registry with the supplied map.  It is used
+// to restore a snapshot between lookup histories.
+func VerifSetEntries(m map[string]*Terminfo) {
+	dblock.Lock()
+	defer dblock.Unlock()
+	terminfos = make(map[string]*Terminfo, len(m))
+	for k, v := range m {
+		terminfos[k] = v
+	}
+}
